@@ -113,15 +113,26 @@ def r131(ctx, R):
              s2.get('additionalProperties') is False,
              'older schemas admit a subset and reject unknown keys',
              sorted(s2.get('properties', {})), nontrivial=False)
-    # keys stored into filters
+    # keys stored into the dict handed to the query builder
+    calls = C.calls_to(ctx, h, 'placement.objects.resource_provider:'
+                       'get_all_by_filters')
+    fvar = None
+    if len(calls) == 1:
+        a = calls[0].args[1] if len(calls[0].args) > 1 else C.kwarg(
+            calls[0], 'filters')
+        if isinstance(a, ast.Name):
+            fd = c05.single_def(h, a.id)
+            if fd is not None and isinstance(fd.value, ast.Dict) and \
+                    not fd.value.keys:
+                fvar = a.id
     produced = set()
     for n in own_nodes(h.node):
         if isinstance(n, ast.Assign):
             for t in n.targets:
                 ts = t.elts if isinstance(t, ast.Tuple) else [t]
                 for x in ts:
-                    if isinstance(x, ast.Subscript) and src(
-                            x.value) == 'filters':
+                    if isinstance(x, ast.Subscript) and fvar and src(
+                            x.value) == fvar:
                         if isinstance(x.slice, ast.Constant):
                             produced.add(x.slice.value)
                         elif isinstance(x.slice, ast.Name):
@@ -166,12 +177,9 @@ def r131(ctx, R):
                  '(required, forbidden) returned by the normaliser is stored '
                  'as (%s, %s)' % tuple(keys), rn, func=h, node=n)
     # the handler passes the dict it built
-    calls = C.calls_to(ctx, h, 'placement.objects.resource_provider:'
-                       'get_all_by_filters')
-    R.ob('R13.1', 'passes-filters', len(calls) == 1 and any(
-        src(a) == 'filters' for a in calls[0].args),
-        'get_all_by_filters(context, filters)', [src(c) for c in calls],
-        func=h)
+    R.ob('R13.1', 'passes-filters', fvar is not None,
+         'get_all_by_filters(context, <the dict the handler created empty '
+         'and filled>)', [src(c) for c in calls], func=h)
     R.count('R13.1', 1, 1)
 
 
